@@ -85,8 +85,7 @@ def gen_data_family(rng, n_roots=(1, 2)):
 
 
 def _cont(d):
-    v = d['values']
-    return np.array(v) if d.get('container') == 'array' else list(v)
+    return gen._container(d)
 
 
 def _layout(m, spec):
